@@ -78,7 +78,29 @@ func richCertTemplate(rich int, seed uint64) *x509.Certificate {
 	return t
 }
 
+// buildAltObject makes the object of a case. The signatureValue BIT STRING of
+// the result always ends in an octet whose lowest bit is clear (the object is
+// re-made from a derived seed until it does), so that changing the unused-bits
+// octet from 0 to 1 still is a well-formed BIT STRING and reaches the
+// signature check instead of dying in the DER padding rule; about one object
+// in four also admits 2 and one in eight 3 unused bits.
 func buildAltObject(c altCase) (*altObject, error) {
+	for attempt := uint64(0); ; attempt++ {
+		cc := c
+		if attempt > 0 {
+			cc.Seed = gen.Mix(c.Seed, attempt, 0xb175)
+		}
+		obj, err := buildAltObjectOnce(cc)
+		if err != nil {
+			return nil, err
+		}
+		if obj.der[len(obj.der)-1]&1 == 0 || attempt >= 40 {
+			return obj, nil
+		}
+	}
+}
+
+func buildAltObjectOnce(c altCase) (*altObject, error) {
 	rnd := gen.NewDetReader(gen.Mix(c.Seed, 0xa17))
 	switch c.Obj {
 	case altCert:
@@ -165,7 +187,7 @@ func buildAltObject(c altCase) (*altObject, error) {
 // substitutions returns the values tried at one position: every single-bit
 // flip, 0x00, 0xff, the neighbours and one pseudo-random value (about 12), or
 // all 255 other values.
-func substitutions(orig byte, full bool, seed uint64, pos int) []byte {
+func substitutions(orig byte, full bool, seed uint64, pos int, extra ...byte) []byte {
 	var out []byte
 	if full {
 		for v := 0; v < 256; v++ {
@@ -190,6 +212,9 @@ func substitutions(orig byte, full bool, seed uint64, pos int) []byte {
 	add(orig + 1)
 	add(orig - 1)
 	add(gen.Fill(gen.Mix(seed, uint64(pos)), 1)[0])
+	for _, v := range extra {
+		add(v)
+	}
 	return out
 }
 
@@ -221,7 +246,7 @@ func checkAlteration(c altCase, r *h.Rec) error {
 	if nch < 1 {
 		nch = 1
 	}
-	var nParseFail, nVerifyFail, nBenign, nPos int
+	var nParseFail, nVerifyFail, nBenign, nPos, nUnusedReached int
 	variant := make([]byte, len(der))
 	for pos := 0; pos < len(der); pos++ {
 		if c.Pos >= 0 {
@@ -232,12 +257,21 @@ func checkAlteration(c altCase, r *h.Rec) error {
 			continue
 		}
 		nPos++
-		inSigned := (pos >= so.tbsOff && pos < so.tbsEnd) || (pos >= so.sigOff && pos < so.sigEnd)
+		// The whole content of the signatureValue BIT STRING is "the signature":
+		// its first octet (number of unused bits) changes the bit string although
+		// the octets that follow stay the same, so there is no byte-identical
+		// escape for it.
+		unusedBitsOctet := pos == so.sigOff-1
+		inSigned := (pos >= so.tbsOff && pos < so.tbsEnd) || (pos >= so.sigOff-1 && pos < so.sigEnd)
+		var extra []byte
+		if unusedBitsOctet {
+			extra = []byte{1, 2, 3, 4, 5, 6, 7}
+		}
 		// Certificates and revocation lists repeat the algorithm identifier inside
 		// the signed part and the parsers promise to refuse a pair that differs
 		// ("inner and outer signature algorithm identifiers don't match").
 		inOuterAlg := (c.Obj == altCert || c.Obj == altCRL) && pos >= so.algOff && pos < so.algEnd
-		for _, v := range substitutions(der[pos], c.Full, c.Seed, pos) {
+		for _, v := range substitutions(der[pos], c.Full, c.Seed, pos, extra...) {
 			copy(variant, der)
 			variant[pos] = v
 			parsed, tbs, sig, verified := obj.try(variant)
@@ -249,9 +283,18 @@ func checkAlteration(c altCase, r *h.Rec) error {
 					altObjNames[c.Obj], keyTypeNames[c.KT], pos, der[pos], v, h.Hex(der))
 			case !verified:
 				nVerifyFail++
+				if unusedBitsOctet {
+					nUnusedReached++
+				}
 			case inSigned:
+				where := "signature"
+				if pos < so.tbsEnd {
+					where = "signed part"
+				} else if unusedBitsOctet {
+					where = "signature BIT STRING: its unused-bits octet"
+				}
 				return fmt.Errorf("%s signed by %s: byte %d (inside the %s) changed %02x -> %02x and the object still parses and verifies (original der=%s)",
-					altObjNames[c.Obj], keyTypeNames[c.KT], pos, map[bool]string{true: "signed part", false: "signature"}[pos < so.tbsEnd], der[pos], v, h.Hex(der))
+					altObjNames[c.Obj], keyTypeNames[c.KT], pos, where, der[pos], v, h.Hex(der))
 			case !bytes.Equal(tbs, so.tbs) || !bytes.Equal(sig, so.sig):
 				return fmt.Errorf("%s signed by %s: byte %d changed %02x -> %02x; the object parses with a different signed part or signature and still verifies (original der=%s)",
 					altObjNames[c.Obj], keyTypeNames[c.KT], pos, der[pos], v, h.Hex(der))
@@ -262,6 +305,9 @@ func checkAlteration(c altCase, r *h.Rec) error {
 	}
 	if nBenign > 0 {
 		r.Label("alter-had-benign-outer-change")
+	}
+	if nUnusedReached > 0 {
+		r.Label("alter-unused-bits-octet-reached-signature-check")
 	}
 	r.Note("len=%d positions=%d parse-fail=%d verify-fail=%d benign-outer=%d", len(der), nPos, nParseFail, nVerifyFail, nBenign)
 	return nil
